@@ -178,6 +178,52 @@ func TestGovcReplay(t *testing.T) {
 		return c.runReplayTest("pkg/x25", map[string]string{"test.go": test}, "TestGovcReplay")
 	case fn == "(frame.V2Frame).marshalTo" || fn == "(frame.V1Frame).marshalTo" || fn == "(frame.V2Frame).GenerateChecksum" || fn == "(frame.V1Frame).GenerateChecksum":
 		return c.replayFrameFields(ns, v, m, string(oracle))
+	case fn == "(*frame.Writer).Initialize" || fn == "(*frame.Writer).writeFrameInner":
+		// the contract is about the marshal buffer: write the largest frames of each kind through the real writer
+		test := `package frame
+
+import ("bytes"; "fmt"; "testing"; "github.com/bluenviron/gomavlib/v3/pkg/message")
+
+func TestGovcReplay(t *testing.T) {
+	payload := make([]byte, 255)
+	for i := range payload { payload[i] = byte(i + 1) }
+	confirmed := false
+	for _, id := range []uint32{0, 255, 0xABCDEF} {
+		for kind := 0; kind < 3; kind++ {
+			var buf bytes.Buffer
+			w := &Writer{ByteWriter: &buf, OutVersion: V2, OutSystemID: 1}
+			if err := w.Initialize(); err != nil { continue }
+			var fr Frame
+			var want []byte
+			sig := V2Signature{9, 8, 7, 6, 5, 4}
+			switch kind {
+			case 0:
+				if id > 255 { continue }
+				fr = &V1Frame{SequenceNumber: 3, SystemID: 4, ComponentID: 5, Message: &message.MessageRaw{ID: id, Payload: payload}, Checksum: 0x1234}
+				want = rpV1Wire(3, 4, 5, id, payload, 0x1234)
+			case 1:
+				fr = &V2Frame{SequenceNumber: 3, SystemID: 4, ComponentID: 5, Message: &message.MessageRaw{ID: id, Payload: payload}, Checksum: 0x1234}
+				want = rpV2Wire(0, 0, 3, 4, 5, id, payload, 0x1234, 0, 0, sig)
+			case 2:
+				fr = &V2Frame{IncompatibilityFlag: 1, SequenceNumber: 3, SystemID: 4, ComponentID: 5, Message: &message.MessageRaw{ID: id, Payload: payload}, Checksum: 0x1234, SignatureLinkID: 7, SignatureTimestamp: 0x010203040506, Signature: &sig}
+				want = rpV2Wire(1, 0, 3, 4, 5, id, payload, 0x1234, 7, 0x010203040506, sig)
+			}
+			err := func() (err error) {
+				defer func() { if e := recover(); e != nil { err = fmt.Errorf("panic: %v", e) } }()
+				return w.Write(fr)
+			}()
+			if err != nil || !bytes.Equal(buf.Bytes(), want) {
+				confirmed = true
+				fmt.Printf("REPLAY-CONFIRMED Writer.Initialize+Write of a full-size frame (kind %d, id %#x): emitted %d bytes (err %v), the frame has %d bytes; emitted tail %x, expected tail %x\n", kind, id, buf.Len(), err, len(want), tailOf(buf.Bytes()), tailOf(want))
+			}
+		}
+	}
+	if !confirmed { fmt.Println("REPLAY-NOT-REPRODUCED") }
+}
+
+func tailOf(b []byte) []byte { if len(b) > 16 { return b[len(b)-16:] }; return b }
+`
+		return c.runReplayTest("pkg/frame", map[string]string{"oracle.go": string(oracle), "test.go": test}, "TestGovcReplay")
 	case fn == "(*frame.V1Frame).unmarshal" || fn == "(*frame.V2Frame).unmarshal" || fn == "(*frame.Reader).Read" || fn == "frame.lemmaForwardRaw":
 		return c.replayStream(ns, v, m, string(oracle))
 	}
